@@ -202,8 +202,11 @@ PROPS["C02"] = {
 PROPS["C01"] = {
     "harnesses": [
         {"pkg": ".", "dir": "s3db", "entry": "VerifH_C02_history",
-         "quick": {"params": "stmts=3,writers=3,merger=1,quiesce=1,nulls=0,own=1,firstins=1", "workers": 16, "timeout": 1800},
-         "thorough": {"params": "stmts=4,writers=3,merger=1,quiesce=1,nulls=0,own=1,firstins=1", "workers": 16, "timeout": 14000}},
+         "quick": {"params": "stmts=3,writers=3,merger=1,quiesce=0,nulls=0,own=1,firstins=1,extra=0", "workers": 16, "timeout": 1800},
+         "thorough": {"params": "stmts=4,writers=2,merger=1,quiesce=0,nulls=0,own=1,firstins=1", "workers": 16, "timeout": 14000}},
+        {"pkg": ".", "dir": "s3db", "entry": "VerifH_C02_history", "tag": "-quiescence",
+         "quick": {"params": "stmts=2,writers=3,merger=1,quiesce=1,nulls=0,own=0,firstins=1", "workers": 16, "timeout": 1800},
+         "thorough": {"params": "stmts=3,writers=3,merger=1,quiesce=1,nulls=0,own=1,firstins=1", "workers": 16, "timeout": 14000}},
     ],
     "bounds": {"quick": "one key, 3 symbolic statements over 3 writers that started from the same table; one optional intermediate point where either everybody commits and refreshes or a third party merges the current versions into an intermediate version; every permutation of the version list at every open (symbolic shuffle); then a merging open and a quiescent re-open",
                "thorough": "4 statements"},
